@@ -252,6 +252,48 @@ def r2_refresh_first(c, facts):
             c.skip(R, 'refresh', 'publish loop shape not recognised')
 
 
+FILTERING = {'filter', 'filter_map', 'skip', 'skip_while', 'take_while', 'step_by', 'flat_map', 'flatten', 'map_while', 'retain', 'retain_mut', 'dedup', 'dedup_by', 'dedup_by_key', 'truncate', 'pop', 'nth', 'last', 'find', 'drain', 'split_off', 'extract_if'}
+
+
+def r19_every_error(c, facts, rule='C15.R19'):
+    """every error logged during the evaluation of the folders becomes a published diagnostic: the loop of
+    Workspace::diagnostics runs over the pending errors as taken - no filtering adaptor, nothing removed - and every
+    iteration stores a diagnostic or fails.  An error that is dropped here (an import cycle sits at the empty span 0..0)
+    leaves a rejected program without any diagnostic, while the CLI fails on the same sources."""
+    R = c.rule(rule, 'EVERY-ERROR: Workspace::diagnostics turns every pending error into a diagnostic - the list is walked as taken (no filtering adaptor) and no iteration goes on without having stored one')
+    plain = c.anchor(R, 'oal_client::lsp::Workspace::diagnostics')
+    dg = facts.normalised(plain)
+    idx = MF.defs_index(dg)
+    fam = [dg] + [x for x in facts.closures_of(plain) if x.mir]
+    takes = {b for b, t in P.call_blocks(dg, 'Option::take', 'mem::take', 'Option::<T>::take', 'mem::replace')}
+    loops = [(b, t) for b, t in P.call_blocks(dg, 'Iterator::next') if 'span::Span' in dg.mir['locals'][t['dest']['l']]['ty'] or 'span::Span' in (t['args'][0].get('ty', '') if t['args'] else '')]
+    used = sorted({P.strip((callee_of(tt) or {}).get('def', '')).split('::')[-1] for g in fam for _, tt in g.calls()} & FILTERING)
+    # adaptors applied to something else than the error list (the docs keys) do not count: look at the values the
+    # adaptor call receives
+    def on_errors(g, tt):
+        return any('span::Span' in a.get('ty', '') for a in tt['args'])
+    used = sorted({P.strip((callee_of(tt) or {}).get('def', '')).split('::')[-1] for g in fam for _, tt in g.calls()
+                   if P.strip((callee_of(tt) or {}).get('def', '')).split('::')[-1] in FILTERING and on_errors(g, tt)})
+    inst = {'fn': 'Workspace::diagnostics', 'loops_over_errors': len(loops), 'takes': len(takes)}
+    if used:
+        c.bad(R, 'diagnostics:errors-filtered:%s' % ','.join(used), 'Workspace::diagnostics passes the pending errors through %s: an error that is dropped there is never published (the import-cycle error sits at the empty span 0..0), and the server stays silent on sources the CLI rejects' % used, **inst)
+    else:
+        c.ok(R, dict(inst, adaptors_on_the_error_list='none that drops an element'))
+    if not loops:
+        c.skip(R, 'diagnostics:loop', 'no loop over (Span, String) items: iterator-chain form')
+        return
+    stores = {bb for bb, tt in dg.calls() if callee_of(tt) and P.strip(callee_of(tt)['def']).split('::')[-1] in ('push', 'insert', 'extend', 'insert_entry', 'or_insert', 'or_insert_with', 'or_default', 'push_back')}
+    err = P.err_blocks(dg)
+    for b, t in loops:
+        if not stores:
+            c.skip(R, 'diagnostics:stores', 'no store call found in the loop')
+        elif b in dg.reachable_from(t['target'], avoid=stores | err):
+            c.bad(R, 'diagnostics:error-skipped', 'Workspace::diagnostics can go on to the next pending error without having stored a diagnostic for the present one: that error is never published', **inst)
+        else:
+            c.ok(R, dict(inst, every_iteration='stores a diagnostic or returns the error'))
+    c.floor(R, 'loops over the pending errors', len(loops), 1)
+
+
 def r3_reset_all(c, facts):
     R = c.rule('C15.R3', 'RESET-ALL: diagnostics cover every known document and consume the pending errors')
     dg = c.anchor(R, 'oal_client::lsp::Workspace::diagnostics')
@@ -641,9 +683,13 @@ def run(c, facts):
     c.shared(R14, lambda c, facts: _c06.r1_order_leak(c, facts, _C.pipeline(facts)[0]), 'C06.R1', facts)
     c.run(r15_initially_stale, facts)
     c.run(r17_eval_unconditional, facts)
+    import c10 as _c10v
+    R18 = c.rule('C15.R18', 'VALIDITY-NOW: whether an import exists is asked of the file system at every load - a verdict remembered from an earlier load (a document that was open then) is edit history (shared with C10.R7)')
+    c.shared(R18, _c10v.r7_locators, 'C10.R7', facts)
     c.run(r6_doc_sync, facts)
     c.run(r1_set_stale, facts)
     c.run(r2_refresh_first, facts)
     c.run(r3_reset_all, facts)
+    c.run(r19_every_error, facts)
     c.run(r4_change, facts)
     c.run(lambda c: c08.r5_binder_kind(c, facts, rule='C15.R5', crates=('oal_client',)))
